@@ -335,7 +335,7 @@ def check_c19(out: Outcome):
                   explanation="{:?} proved by Kani through the real core::fmt for all raw values; {:#?} covered by exhaustive native execution (stand-in)")
 
 
-QUICK_DEBUG_KANI = ("dbg8", "dbg12", "dbgn")
+QUICK_DEBUG_KANI = ("dbg8", "dbg12", "dbgn", "surfd")
 
 
 def driver_kani_cmd():
